@@ -28,7 +28,7 @@ PID = "C06"
 
 ALL_MUTS = ["unkTemplate", "unkArg", "unkParRef", "unkParTmpl", "unkStep", "selfRef", "nonSibling", "missingArg",
             "missingWfArg", "missingEntry", "wfCycle", "badRef", "refToWf", "refToMissing", "dataCycle", "methodless",
-            "dupExec", "noExec", "execNoStep", "digitName", "unkEntry", "entryUnkArg", "varShadowsParam"]
+            "dupExec", "noExec", "execNoStep", "digitName", "unkEntry", "entryUnkArg", "varShadowsParam", "dictInStep", "dictInField"]
 
 INVARIANTS = ["TypeOK", "PathsUnique", "OnePerStep", "NoParamLeft", "BindingsAsDeclared", "VariablesArePrivate", "FilesAsWritten", "RefsResolve", "Acyclic",
               "RelationInduced", "ValidPartCompiles", "EntrySourcesReject", "MutationsReject", "RejectedHasLocation"]
@@ -46,13 +46,13 @@ def constants(tier):
         c = dict(Depths=[1, 2, 3], Reuses=[0, 1, 2], Orders=["fwd", "rev"],
                  Namings=["homo", "dist", "prefix", "sufclash", "st0clash", "stage1"],
                  Spellings=["bareT", "meth", "in", "out", "q", "qcut", "dup", "two"], PassDowns=["bare", "sfx", "meth", "file"],
-                 Bindings=["dflt", "lit", "fwd", "dfwd", "ovr", "emb"], VarModes=["none", "priv", "shadow"], EntryModes=["off", "on"], Muts=ALL_MUTS, MutNamings=["dist", "homo", "prefix"],
+                 Bindings=["dflt", "lit", "fwd", "dfwd", "ovr", "emb", "litE", "litZ", "fwdE", "fwdZ"], VarModes=["none", "priv", "shadow"], EntryModes=["off", "on"], Muts=ALL_MUTS, MutNamings=["dist", "homo", "prefix"],
                  Full="TRUE")
     else:
         c = dict(Depths=[1, 2, 3], Reuses=[0, 1, 2], Orders=["fwd", "rev"],
                  Namings=["homo", "dist", "prefix", "sufclash", "st0clash", "stage1"],
                  Spellings=["bareT", "meth", "in", "out", "q", "qcut", "dup", "two"], PassDowns=["bare", "sfx", "meth", "file"],
-                 Bindings=["dflt", "lit", "fwd", "dfwd", "ovr", "emb"], VarModes=["none", "priv", "shadow"], EntryModes=["off", "on"], Muts=ALL_MUTS, MutNamings=["dist", "homo"],
+                 Bindings=["dflt", "lit", "fwd", "dfwd", "ovr", "emb", "litE", "litZ", "fwdE", "fwdZ"], VarModes=["none", "priv", "shadow"], EntryModes=["off", "on"], Muts=ALL_MUTS, MutNamings=["dist", "homo"],
                  Full="FALSE")
     return c
 
@@ -75,7 +75,7 @@ def write_cfg(path, consts, emit, invariants):
 
 def render_tok(t):
     k = t["k"]
-    if k == "lit":
+    if k in ("lit", "num"):
         return t["s"]
     if k == "par":
         s = "%%(%s)s" % t["s"]
@@ -102,6 +102,11 @@ def render_tok(t):
 
 
 def render_value(v):
+    if len(v) == 1 and v[0]["k"] == "num":
+        return int(v[0]["s"])                       # a YAML integer
+    if len(v) == 1 and v[0]["k"] == "dict":
+        key, val = v[0]["s"].split("=")
+        return {key: val}                           # a YAML dictionary
     return "".join(render_tok(t) for t in v)
 
 
@@ -229,7 +234,7 @@ def conventional(step, comp_id):
 def render_resolved(tokens, names):
     out = []
     for t in tokens:
-        if t["k"] == "lit":
+        if t["k"] in ("lit", "num"):
             out.append(t["s"])
         elif t["k"] == "var":
             out.append("%%(%s)s" % t["s"])       # a private variable of the component stays, FlowIR binds it
@@ -272,7 +277,7 @@ def arg_pattern(inst):
     """regular expression of the compiled arguments of an instance: the names of its producers are the unknowns"""
     rx, prods = [], []
     for t in inst["args"]:
-        if t["k"] == "lit":
+        if t["k"] in ("lit", "num"):
             rx.append(re.escape(t["s"]))
         elif t["k"] == "var":
             rx.append(re.escape("%%(%s)s" % t["s"]))
